@@ -44,6 +44,7 @@ FIXES = [
     ("fixed-C02-raising-getattr-exception", "C02", "raise_odd", "whose __getattr__ raises is reported"),
     ("fixed-C03-enum-result-equal-object", "C03", "EqName", "serialised as the declared value"),
     ("fixed-C06-single-root-type-conditions", "C06", "valid_request_refused", "follows CollectFields for fragments"),
+    ("fixed-C02-frozen-exception", "C02", "raise_odd", "cannot be annotated in place"),
     ("fixed-C06-subscription-root-repeated", "C06", "valid_request_refused", "single root field several times"),
 ]
 
